@@ -94,6 +94,9 @@ let run_case line =
   | img :: ops ->
     let file = ref (unhex img) in
     let obj = ref ft_create in
+    (* C: the object frag_table_copy returns = coq/C08/FragTableCopy.v ft_copy_holds_same_entries: capacity := used of the
+       source, same size / used / elements (ft_copy itself is not in the extraction; this is its proved result) *)
+    let other = ref None in
     (* the super block fields sqfs_frag_table_write maintains; W starts from flags 0 / count 0 / start 0 *)
     let cflags = ref N0 and cstart = ref N0 and ccount = ref N0 and wbase = ref 0 in
     let out = Buffer.create 256 in
@@ -115,6 +118,13 @@ let run_case line =
          | Crash -> emit "L=CRASH" | OutOfFuel -> emit "L=FUEL")
       | ["S"] -> emit ("S=" ^ string_of_n (ft_get_size !obj))
       | ["N"] -> obj := ft_create; emit "N"
+      | ["C"] ->
+        let o = !obj in
+        other := Some { a_size = o.a_size; a_count = o.a_used; a_used = o.a_used; a_data = o.a_data }; emit "C=0"
+      | ["X"] ->
+        (match !other with
+         | None -> emit "X?"
+         | Some c -> other := Some !obj; obj := c; emit "X")
       | ["A"; loc; sz] ->
         let ((r, o), i) = ft_append !obj (n_of_hex loc) (n_of_hex sz) in
         obj := o; emit (Printf.sprintf "A=%d:%s" (int_of_z r) (string_of_n i))
